@@ -61,6 +61,23 @@ static void* holder_fiber(void* a) {
   return NULL;
 }
 
+// hammer: tight trywait/post loops on a small semaphore (windows inside trywait/post that have no hook point)
+static _Atomic int hammer_stop;
+static void* hammer_try_fiber(void* a) {
+  fb_slot_t* s = (fb_slot_t*)a;
+  long n = 0, i;
+  for (i = 0; i < (long)iters * 200 && !atomic_load(&hammer_stop); ++i) {
+    if (try_wait(s)) {
+      const long in = atomic_fetch_add(&inside, 1) + 1;
+      if (in > initial) vp_violation("C06", "sem:too-many-holders", "trial %d (hammer): %ld fibers hold a unit of a semaphore initialised to %d", trial, in, initial);
+      atomic_fetch_sub(&inside, 1);
+      do_post(s);
+    }
+    if ((++n & 31) == 0) fiber_yield();
+  }
+  return NULL;
+}
+
 static void* consumer_fiber(void* a) {
   fb_slot_t* s = (fb_slot_t*)a;
   long i;
@@ -112,7 +129,18 @@ void* sy_sem_root(void* x) {
     fb_slot_t* sl[256];
     int n = 0, i;
     long expect_value;
-    if (kind == 0) {
+    if (trial % 4 == 3) {
+      kind = 2;
+      initial = 1 + (int)(vp_rand(&rng) % 2);
+      fiber_semaphore_destroy(&sem);
+      fiber_semaphore_init(&sem, initial);
+      const int T = 3 + (int)(vp_rand(&rng) % 6);
+      atomic_store(&hammer_stop, 0);
+      for (i = 0; i < T; ++i) sl[n++] = fb_spawn(hammer_try_fiber, NULL);
+      for (i = 0; i < 2; ++i) sl[n++] = fb_spawn(holder_fiber, NULL);
+      expect_value = initial;
+      vp_count("sem_hammer_trials", 1);
+    } else if (kind == 0) {
       const int F = 2 + (int)(vp_rand(&rng) % (unsigned)(maxf - 1));
       for (i = 0; i < F; ++i) sl[n++] = fb_spawn(holder_fiber, NULL);
       expect_value = initial;
